@@ -627,6 +627,19 @@ def c05_families(tier, seed, ids=None):
                   call("toa", lst([N("s")])), call("aton", N("s")), call("write", ix1(N("s"), I(1))), I(1)]
         na.append(mk(ids, items, {"non-ascii": txt}))
     out.append(("strings whose byte and character counts differ: index, slice, iterate", na, ("nocrash",)))
+    # declarations the grammar admits although they mean little: repeated parameter or loop-variable names, names of built-ins
+    # reused for parameters / locals / loop variables, a function whose parameter is also assigned, called and looped over
+    od = []
+    for k, (ps_, body, args) in enumerate([(["a", "a"], block([assign("a", St("x")), I(1)]), [I(1), I(2)]), (["a", "a"], N("a"), [I(1), I(2)]), (["a", "b", "a"], lst([N("a"), N("b")]), [I(1), I(2), I(3)]),
+                                           (["a", "a", "a"], block([assign("t", bin_("+", N("a"), I(1))), N("t")]), [I(1), I(2), I(3)]),
+                                           (["write", "toa"], call("write", N("toa")), [N("id"), I(2)]), (["fromto"], fr(["i"], [call("fromto", I(0), I(2))], N("i")), [N("elems")]),
+                                           (["p"], fr(["p", "p"], [call("fromto", I(0), I(2)), call("fromto", I(5), I(9))], N("p")), [I(1)]),
+                                           (["p"], block([assign("p", fn(["p"], N("p"))), call("p", call("p", I(3)))]), [I(1)])]):
+        od.append(mk(ids, [IDF, assign("odd", fn(ps_, body)), call("odd", *args), call("odd", *args), fr(["q"], [call("fromto", I(0), I(2))], call("odd", *args)),
+                           assign("gen", fn([], y(call("odd", *args)))), fr(["q"], [call("gen")], N("q")), I(1)], {"odd-declaration": k}))
+    od.append(mk(ids, [fr(["i", "i"], [call("fromto", I(0), I(3)), call("fromto", I(5), I(9))], N("i")), assign("w", fn([], fr(["i", "i", "j"], [call("fromto", I(0), I(3)), call("fromto", I(5), I(9)), call("elems", St("ab"))], lst([N("i"), N("j")])))), call("w"), I(1)],
+                 {"odd-declaration": "loop variables"}))
+    out.append(("declarations the grammar admits although they mean little (repeated names, names of built-ins)", od, ("nocrash",)))
     # every statement form as last statement of a function / loop body / while ending in return
     forms = [I(1), assign("t", I(2)), iff(Bo(True), I(3)), iff(Bo(False), I(3)), ife(Bo(True), I(4), I(5)), wh(Bo(False), I(6)),
              wh(Bo(True), ret(I(7))), fr(["w"], [call("fromto", I(0), I(2))], N("w")), fr(["w"], [call("fromto", I(0), I(2))], ret(N("w"))),
